@@ -219,5 +219,6 @@ package volatility
 //@ use psum_cong(percentageDrawdown, pdS(closings, u.Period), _)
 //@ step[C01,C15] "average" forall k :: 0 <= k && k < len(result) ==> res(Sma_Compute, 0)[k] == smaS(pdS(closings, u.Period), u.Period)[k]
 //@ step[C01,C15] "as-implemented" forall k :: 0 <= k && k < len(result) ==> result[k] == sqrt(powr(smaS(pdS(closings, u.Period), u.Period)[k], 2))
-//@ ensures[C01] "documented" forall k :: 0 <= k && k < len(result) ==> result[k] == ulcerS(closings, u.Period)[k]
+//@ ensures[C01] "as-implemented" forall k :: 0 <= k && k < len(result) ==> result[k] == sqrt(powr(smaS(pdS(closings, u.Period), u.Period)[k], 2))
+//@ guarantees[C01] "documented" forall k :: 0 <= k && k < len(result) ==> result[k] == ulcerS(closings, u.Period)[k]
 //@ ensures[C15] "non-negative" forall k :: 0 <= k && k < len(result) ==> result[k] >= 0
